@@ -248,25 +248,40 @@ def renderOut : Out → String
   | .err => "e"
   | .panic => "panic"
 
+/-- what is printed about a state after every step: the rendering, re-parse, parts round trip, serde form -/
+def stateSuffix (y : Locale) : String :=
+  let rp := Locale.fromBytes y.display == .ok y
+  let (pl, ps, pr, pv, pe) := y.intoParts
+  let pp := match ExtMap.fromBytes pe with
+    | .ok em => Locale.fromParts pl ps pr pv (some em) == y
+    | _ => false
+  let sd := match Serde.serialize y.id with
+    | .str t => t == y.id.display && Serde.deserialize (.str t) == .ok y.id
+    | _ => false
+  s!"{renderLoc y};rp={b01 rp};pp={b01 pp};sd={b01 sd}"
+
+/-- `cd`: `character_direction()` of the identifier as a getter inside a history (build with likely-subtags support;
+    not an `Op` of the refinement theorems: it reads the state and leaves it alone) -/
+def histDirection (x : LangId) : String :=
+  match LangId.direction true Gen.tables Gen.layout x with
+  | .ok d => s!"d{dirName d}"
+  | .err _ => "e"
+  | .panic => "panic"
+
 def histLoop (x : Locale) (acc : String) : List String → String
   | [] => acc
   | o :: os =>
+    if o == "cd" then
+      let d := histDirection x.id
+      if d == "panic" then acc ++ " # panic" else histLoop x (acc ++ s!" # {d}@{stateSuffix x}") os
+    else
     match parseOp o with
     | none => acc ++ " # na"
     | some op =>
       let (y, out) := step Gen.tables x op
       match out with
       | .panic => acc ++ " # panic"
-      | _ =>
-        let rp := Locale.fromBytes y.display == .ok y
-        let (pl, ps, pr, pv, pe) := y.intoParts
-        let pp := match ExtMap.fromBytes pe with
-          | .ok em => Locale.fromParts pl ps pr pv (some em) == y
-          | _ => false
-        let sd := match Serde.serialize y.id with
-          | .str t => t == y.id.display && Serde.deserialize (.str t) == .ok y.id
-          | _ => false
-        histLoop y (acc ++ s!" # {renderOut out}@{renderLoc y};rp={b01 rp};pp={b01 pp};sd={b01 sd}") os
+      | _ => histLoop y (acc ++ s!" # {renderOut out}@{stateSuffix y}") os
 
 def ansHist (a : List String) : String :=
   match a with
@@ -361,6 +376,10 @@ def absOfLocV (v : Spec.LocV) : Spec.AbsLoc :=
 def specHistLoop (a : Spec.AbsLoc) (acc : String) : List String → String
   | [] => acc
   | o :: os =>
+    if o == "cd" then
+      let d := histDirection { language := a.language, script := a.script, region := a.region }
+      specHistLoop a (acc ++ s!" # {d}@{renderLocV (Spec.toLocV a)};rp=1;pp=1;sd=1") os
+    else
     match parseOp o with
     | none => acc ++ " # na"
     | some op =>
